@@ -17,8 +17,11 @@ def ts_mape(expected_y, predicted_y, sample_weight=None):
     assert len(expected_y) == len(
         predicted_y
     ), f"Size mismatch {len(expected_y)} != {len(predicted_y)}."
-    expected_y = numpy.squeeze(expected_y)
-    predicted_y = numpy.squeeze(predicted_y)
+    # values are compared by position: a pandas Series would align on labels
+    expected_y = numpy.squeeze(numpy.asarray(expected_y))
+    predicted_y = numpy.squeeze(numpy.asarray(predicted_y))
+    if sample_weight is not None:
+        sample_weight = numpy.asarray(sample_weight)
     mask = numpy.isnan(predicted_y)
     mask2 = mask.copy()
     mask2[1:] |= numpy.isnan(predicted_y[:-1])
